@@ -240,35 +240,61 @@ func c13Stages() []c13LoadStage {
 // c13Load upgrades body and runs the loader and the start-up stages on the
 // result.  Any rejection or panic is reported with the stage's name.
 func c13Load(pristine *configuration, body []byte, dir string) (ok bool, msg string, stagesRun int) {
-	ok = true
+	mg := configmigrate.New(&configmigrate.Config{WorkingDir: filepath.Join(dir, "nonexistent"), DataDir: dir})
+	r := c13LoadWith(mg, pristine, body, dir)
+	return r.ok, r.msg, r.stagesRun
+}
+
+// c13Loaded is what c13LoadWith saw.  portsReached: the upgraded document
+// decoded and validateBindHosts passed, so that the only thing left for
+// validateConfig to refuse are the ports (it returns nothing else after the
+// bind hosts: no text is compared); portsRefused: it did refuse.
+type c13Loaded struct {
+	ok           bool
+	msg          string
+	stagesRun    int
+	upgradeErr   bool
+	portsReached bool
+	portsRefused bool
+	newBody      []byte
+}
+
+func c13LoadWith(mg *configmigrate.Migrator, pristine *configuration, body []byte, dir string) (r c13Loaded) {
+	r.ok = true
 	stage := "Migrate"
 	defer func() {
 		if p := recover(); p != nil {
-			ok, msg = false, fmt.Sprintf("%s: panic: %v", stage, p)
+			r.ok, r.msg = false, fmt.Sprintf("%s: panic: %v", stage, p)
 		}
 	}()
-	mg := configmigrate.New(&configmigrate.Config{WorkingDir: filepath.Join(dir, "nonexistent"), DataDir: dir})
 	newBody, _, merr := mg.Migrate(body, configmigrate.LastSchemaVersion)
 	if merr != nil {
-		return false, "upgrade of a valid document failed: " + merr.Error(), 0
+		r.ok, r.upgradeErr, r.msg = false, true, "upgrade of a valid document failed: "+merr.Error()
+		return r
 	}
+	r.newBody = newBody
 	stage = "yaml.Unmarshal"
 	fresh := &configuration{}
 	c13DeepCopy(reflect.ValueOf(fresh).Elem(), reflect.ValueOf(pristine).Elem())
 	config = fresh
 	if uerr := yaml.Unmarshal(newBody, &config); uerr != nil {
-		return false, "loader rejects the upgraded document: " + uerr.Error(), 0
+		r.ok, r.msg = false, "loader rejects the upgraded document: "+uerr.Error()
+		return r
 	}
+	stage = "validateBindHosts"
+	r.portsReached = validateBindHosts(config) == nil
 	ctx, cancel := context.WithTimeout(context.Background(), 20*time.Second)
 	defer cancel()
 	for _, s := range c13Stages() {
 		stage = s.name
 		if err := s.run(ctx, dir); err != nil {
-			return false, fmt.Sprintf("%s rejects the upgraded document: %v", s.name, err), stagesRun
+			r.ok, r.msg = false, fmt.Sprintf("%s rejects the upgraded document: %v", s.name, err)
+			r.portsRefused = r.portsReached && s.name == "validateConfig"
+			return r
 		}
-		stagesRun++
+		r.stagesRun++
 	}
-	return true, "", stagesRun
+	return r
 }
 
 // c13LoaderClients are persistent clients valid under the schema of version
